@@ -67,7 +67,7 @@ def run_worker(prop, o, tier, twin, excluded):
     if excluded:
         args += ['--exclude', ','.join(sorted(excluded))]
     budget = min(o.timeout, 120.0) if twin else o.timeout
-    return run_child(ENGINE_PY, 'vsym.worker', args, budget * 1.6 + 90)
+    return run_child(ENGINE_PY, 'vsym.worker', args, budget * float(os.environ.get('VSYM_WALL_FACTOR', '3')) + 120)
 
 
 def run_replay(python, prop, obname, tier, args_src, excluded=()):
